@@ -680,6 +680,28 @@ def time_travel_family():
             r1 = d.jump("double").remix(5.0)
             if not close(r1.final_retval, ((5.0 * 2.0 + 1.0) - 3.0) * 10.0):
                 fail("debugger.remix at an earlier frame: later record points are not re-run", final=r1.final_retval)
+    # record points that do NOT depend on the previous recorded call (their arguments are concrete when a continuation is
+    # replayed), and a tag whose result is discarded
+    from genjax._src.core.compiler.interpreters.time_travel import tag
+
+    def indep(x, y):
+        a = rec(g1, "a")(x)
+        b = rec(g2, "b")(y)
+        tag(y, "t")
+        c = rec(lambda u, v: u + v, "c")(a, b)
+        return c
+    d = time_machine(indep)(1.0, 2.0)
+    tags = [k for k, _ in sorted(d.jump_points.items(), key=lambda kv: kv[1])]
+    if tags != ["_enter", "a", "b", "t", "c", "exit"] or len(d.sequence) != 6:
+        fail("time_machine: not one frame per recorded call when a record point does not depend on the previous one", tags=tags,
+             frames=len(d.sequence))
+    elif not close(d.final_retval, indep(1.0, 2.0)):
+        fail("time_machine: final_retval != f(args) (independent record points)")
+    else:
+        r = d.jump("a").remix(5.0)
+        tags2 = [k for k, _ in sorted(r.jump_points.items(), key=lambda kv: kv[1])]
+        if tags2 != tags or not close(r.final_retval, 5.0 * 2.0 + (2.0 - 3.0)):
+            fail("debugger.remix: the re-recorded tail misses frames / wrong value (independent record points)", tags=tags2, final=r.final_retval)
 
 
 def diff_family():
@@ -1254,6 +1276,49 @@ def adev_family():
             fail("ADEV: Expectation.estimate does not average to the expectation", program=name, mean=m2, want=want)
 
 
+def vi_family():
+    """C30: ELBO gradient estimates against closed forms on an enumerable model/guide pair (exact: the guide uses flip_enum) -
+    with respect to the guide parameter AND a model parameter, and with a guide that proposes only part of the latents"""
+    @gen
+    def dmodel(t, r):
+        z = genjax.flip(r) @ "z"
+        _ = genjax.flip(jnp.where(z, 0.9, 0.2)) @ "y"
+
+    @genjax.marginal()
+    @gen
+    def dguide(target):
+        t, _ = target.args
+        _ = genjax.vi.flip_enum(t) @ "z"
+    elbo = lambda t, r: t * (jnp.log(r) + jnp.log(0.9) - jnp.log(t)) + (1 - t) * (jnp.log(1 - r) + jnp.log(0.2) - jnp.log(1 - t))
+    grad = genjax.vi.ELBO(dguide, lambda t, r: genjax.Target(dmodel, (t, r), C.kw(y=True)))
+    for i, (t, r) in enumerate([(0.4, 0.3), (0.15, 0.6), (0.85, 0.5)]):
+        got = grad(jrand.key(i), (t, r))
+        want = jax.grad(lambda a, b: -elbo(a, b), argnums=(0, 1))(t, r)
+        for nm, g, w in zip(("guide parameter", "model parameter"), got, want):
+            if not close(g, w, tol=1e-3):
+                fail("ELBO gradient estimate (exact enumeration) differs from the gradient of the objective", wrt=nm, t=t, r=r, got=g, want=w)
+
+    @gen
+    def gmodel(a, b, s_):
+        mu = normal(0.0, s_) @ "mu"
+        _ = normal(mu, 1.0) @ "y"
+
+    @genjax.marginal()
+    @gen
+    def gguide(target):
+        a, b, _ = target.args
+        _ = genjax.vi.normal_reparam(a, b) @ "mu"
+    Y, N = 3.0, 20000
+    ggrad = genjax.vi.ELBO(gguide, lambda a, b, s_: genjax.Target(gmodel, (a, b, s_), C.kw(y=Y)))
+    for a, b, s_ in ((0.5, 0.7, 2.0), (2.0, 1.3, 1.5)):
+        gs = jax.jit(jax.vmap(lambda k: ggrad(k, (a, b, s_))))(jrand.split(jrand.key(11), N))
+        want = (a / s_ ** 2 - (Y - a), b / s_ ** 2 + b - 1 / b, 1 / s_ - (a ** 2 + b ** 2) / s_ ** 3)
+        for nm, g, w in zip(("guide mean", "guide scale", "model prior scale"), gs, want):
+            mean, se = float(jnp.mean(g)), float(jnp.std(g) / jnp.sqrt(N))
+            if abs(mean - w) > 6 * se + 2e-3:
+                fail("ELBO gradient estimate (conjugate Gaussian pair, reparameterised guide) is biased", wrt=nm, params=(a, b, s_), mean=mean, want=w)
+
+
 def hmc_family():
     """C28: momenta (independent standard normals per selected leaf, of the leaf's shape), kinetic energy (sum over all
     elements), alpha = H(start) - H(end) for scalar and vector leaves (L = 1, momenta recovered from the leapfrog equations),
@@ -1465,7 +1530,7 @@ def selection_family():
 
 FAMILIES = [
     (("C19.Mask.", "Mask._or_idx"), mask_algebra_family), (("C18.",), selection_family), ((".Diff.",), diff_family),
-    (("C29.", "TailCallADEVPrimitive"), adev_family), (("C28.", "sample_momenta"), hmc_family), (("C20.", "FlagOp", "multi_switch", "tree_choose"), staging_family), (("C33.",), invalid_subset_family),
+    (("C30.",), vi_family), (("C29.", "TailCallADEVPrimitive"), adev_family), (("C28.", "sample_momenta"), hmc_family), (("C20.", "FlagOp", "multi_switch", "tree_choose"), staging_family), (("C33.",), invalid_subset_family),
     (("C38.",), derived_family), (("C36.",), stateful_family), (("C09.", "incremental"), incremental_family), (("C04.",), key_family), (("C21.",), pytree_family), (("C25.", "Marginal"), marginal_family), (("C27.", "Rejuvenate"), rejuvenate_family), (("C31.",), time_travel_family), (("C17.",), choice_map_family), (("C26.",), smc_family),
     (("MaskCombinator", "MaskTrace"), mask_family), (("Distribution", "ExactDensity", "C24."), distribution_family),
     (("Dimap",), dimap_family), (("Switch",), switch_family), (("Vmap", "repeat"), vmap_family),
